@@ -26,6 +26,8 @@ class Abbr:
 
 def run(chk, ctx):
     P = Prog(ctx["facts"])
+    from . import eqrules
+    eqrules.require_clone(chk, P, ["Signal"], "load_test binds the test to the file's own signals")
     L = panrules.Lemmas(P, chk)
     chk.explanation = ("C16 decided clauses: PAN (every panic-capable construct in the closure of dig::File::parse / from_str / load_test / load_test_by_name / open is discharged; text_pos_to_range rests on the stated roxmltree position contract), "
                        "constant-table rule (the element names passed to the element filter at its three call sites composed with the Signal literal built downstream: Out -> Output, In|Clock -> Input{default}, Testcase -> test; attribute keys Label, Bits (default 1), InDefault with z == \"true\" -> Z, v -> Value(parse), default Value(0); Testdata/testData/dataString; unlabelled pins skipped, unlabelled tests \"(unnamed)\"), "
